@@ -104,6 +104,17 @@ func (r *Replica) initChain(g *Genesis) (err error) {
 // through ante handler / message router / post handler, end-blocker) WITHOUT
 // committing. A panic that escapes BaseApp is caught and reported.
 func (r *Replica) Finalize(b *Block) (out *BlockResult) {
+	// The ABCI call runs on a goroutine of its own, as it does in a real node (CometBFT calls the application
+	// from its own goroutines). The application stores Go stack traces in consensus state in at least one place
+	// (the SDK's gov module keeps "failed to run legacy handler ... %+v" of a failed legacy proposal in the
+	// proposal record): with the call made directly, the trace would end in the simulator's own frames, which
+	// differ from replica to replica - an artefact of the harness, not of the application.
+	done := make(chan *BlockResult, 1)
+	go func() { done <- r.finalize(b) }()
+	return <-done
+}
+
+func (r *Replica) finalize(b *Block) (out *BlockResult) {
 	out = &BlockResult{Height: b.Height}
 	defer func() {
 		if x := recover(); x != nil {
@@ -343,6 +354,12 @@ func DiffStoreClasses(a, b *Replica) []string {
 // DiffStoreClassesEx is DiffStoreClasses that also returns one example key per class. refine, when set,
 // may return a suffix that splits a class by what the differing entry holds (va / vb nil = absent).
 func DiffStoreClassesEx(a, b *Replica, refine func(store string, key, va, vb []byte) string) ([]string, map[string]string) {
+	return DiffStoreClassesCtx(a, b, a.QueryCtx(), b.QueryCtx(), refine)
+}
+
+// DiffStoreClassesCtx is DiffStoreClassesEx over explicit contexts (for instance the committed state of a
+// and the not yet committed state of b right after its InitChain).
+func DiffStoreClassesCtx(a, b *Replica, ca, cb sdk.Context, refine func(store string, key, va, vb []byte) string) ([]string, map[string]string) {
 	cls := func(store string, key, va, vb []byte) string {
 		c := keyClass(key)
 		if refine != nil {
@@ -364,7 +381,6 @@ func DiffStoreClassesEx(a, b *Replica, refine func(store string, key, va, vb []b
 		names = append(names, n)
 	}
 	sort.Strings(names)
-	ca, cb := a.QueryCtx(), b.QueryCtx()
 	for _, n := range names {
 		if kb[n] == nil {
 			continue
